@@ -1,5 +1,5 @@
 #!/usr/bin/env python3
-"""C05 -- text model: each glyph gets the position, advance and state PDF assigns (DESIGN.md 3.C05)."""
+"""C05 -- text model: each glyph gets the position, advance and state PDF assigns (DESIGN.md section 4, C05)."""
 import os
 import sys
 from fractions import Fraction as Fr
@@ -44,7 +44,7 @@ MANIFEST_ENTRY = {
             "model is tied to pdfinterp.py/pdfdevice.py by generated arithmetic and differential runs.",
     "note": "Trusted: Coq kernel, translator, hand model tied by differential runs (float tolerance 1e-7), harness generator. "
             "Fixes 788cc4b, b213ea3, 0daa3ba, 2a6e64c, 909d08c were needed for the statements to hold.",
-    "design_ref": "DESIGN.md 3.C05",
+    "design_ref": "DESIGN.md section 4, C05",
 }
 
 ALNUM = b"ABCDEFGHIJKLMNOPQRSTUVWXYZabcdefghijklmnopqrstuvwxyz0123456789     "
